@@ -7,6 +7,7 @@ package jlib
 import (
 	"fmt"
 	"math"
+	"math/big"
 	"math/rand"
 	"reflect"
 	"regexp"
@@ -50,8 +51,6 @@ func Number(value StringNumberBool) (float64, error) {
 // the nearest integer. A negative precision specifies which column
 // to round to on the left hand side of the decimal place.
 func Round(x float64, prec jtypes.OptionalInt) float64 {
-	// Adapted from gonum's floats.RoundEven.
-	// https://github.com/gonum/gonum/tree/master/floats
 
 	if x == 0 {
 		// Make sure zero is returned
@@ -62,31 +61,63 @@ func Round(x float64, prec jtypes.OptionalInt) float64 {
 	if prec.Int >= 0 && x == math.Trunc(x) {
 		return x
 	}
-	intermed := multByPow10(x, prec.Int)
-	if math.IsInf(intermed, 0) {
+	if math.IsNaN(x) || math.IsInf(x, 0) {
 		return x
 	}
-	if isHalfway(intermed) {
-		correction, _ := math.Modf(math.Mod(intermed, 2))
-		intermed += correction
-		if intermed > 0 {
-			x = math.Floor(intermed)
-		} else {
-			x = math.Ceil(intermed)
-		}
-	} else {
-		if x < 0 {
-			x = math.Ceil(intermed - 0.5)
-		} else {
-			x = math.Floor(intermed + 0.5)
-		}
+	// A float64 has fewer than 1100 fraction digits and fewer
+	// than 400 integer digits: nothing to do beyond that.
+	if prec.Int > 1100 {
+		return x
 	}
-
-	if x == 0 {
+	if prec.Int < -400 {
 		return 0
 	}
 
-	return multByPow10(x, -prec.Int)
+	// Round the shortest decimal representation of x (the number
+	// the user sees) with exact arithmetic. Scaling a float64 by a
+	// power of ten is not exact: values next to a tie, such as
+	// 0.49999999999999994 or 1.6500000000000001, were rounded the
+	// wrong way.
+	r, ok := new(big.Rat).SetString(strconv.FormatFloat(x, 'e', -1, 64))
+	if !ok {
+		return x
+	}
+
+	pow := new(big.Rat).SetInt(new(big.Int).Exp(big.NewInt(10), big.NewInt(int64(abs(prec.Int))), nil))
+	if prec.Int >= 0 {
+		r.Mul(r, pow)
+	} else {
+		r.Quo(r, pow)
+	}
+
+	// n is the floor of the scaled value (Div is Euclidean
+	// division and the denominator is positive).
+	n := new(big.Int).Div(r.Num(), r.Denom())
+	rem := new(big.Rat).Sub(r, new(big.Rat).SetInt(n))
+
+	switch rem.Cmp(big.NewRat(1, 2)) {
+	case 1:
+		n.Add(n, big.NewInt(1))
+	case 0:
+		// Exactly halfway: round to even.
+		if n.Bit(0) == 1 {
+			n.Add(n, big.NewInt(1))
+		}
+	}
+
+	res := new(big.Rat).SetInt(n)
+	if prec.Int >= 0 {
+		res.Quo(res, pow)
+	} else {
+		res.Mul(res, pow)
+	}
+
+	f, _ := res.Float64()
+	if f == 0 {
+		return 0
+	}
+
+	return f
 }
 
 // Power returns x to the power of y.
